@@ -473,14 +473,25 @@ class Feedback:
             cls._override_backups = {}
         for field, new_value in fields.items():
             if field not in cls._override_backups:
-                cls._override_backups[field] = getattr(cls, field)
+                getattr(cls, field)  # Unknown fields are still an AttributeError
+                # Back up the class's OWN value. A field that is merely
+                # inherited is removed again on restore, instead of pinning a
+                # copy of whatever the parent held at this moment.
+                cls._override_backups[field] = cls.__dict__.get(field, cls._INHERITED_FIELD)
             setattr(cls, field, new_value)
         report.override_feedback(cls)
+
+    #: Marks a backed-up field that the class did not define itself
+    _INHERITED_FIELD = object()
 
     @classmethod
     def _restore_overrides(cls):
         for field, old_value in cls._override_backups.items():
-            setattr(cls, field, old_value)
+            if old_value is cls._INHERITED_FIELD:
+                if field in cls.__dict__:
+                    delattr(cls, field)
+            else:
+                setattr(cls, field, old_value)
         cls._override_backups.clear()
 
 
